@@ -301,6 +301,7 @@ type InitSpec struct {
 	InitialEon uint64
 	ForkOn     bool
 	ForkHeight int64
+	ForkLegacy bool // the genesis file states the fork in the older form (a bare height, or nothing at all when off)
 	DevMode    bool
 	Validators []ValPower
 }
@@ -431,6 +432,14 @@ func (im *Impl) Do(o *Op) (res RawResp) {
 		im.App.Gobpath = im.Gobpath
 		im.App.DevMode = o.Init.DevMode
 		fh := &app.ForkHeights{CheckInUpdateNew: app.ForkHeight{Enabled: o.Init.ForkOn, Height: o.Init.ForkHeight}}
+		if o.Init.ForkLegacy {
+			if o.Init.ForkOn {
+				h := o.Init.ForkHeight
+				fh = &app.ForkHeights{CheckInUpdate: &h}
+			} else {
+				fh = nil
+			}
+		}
 		gen := app.NewGenesisAppState(o.Init.Keypers, int(o.Init.Threshold), o.Init.InitialEon, fh)
 		bz, err := amino.NewCodec().MarshalJSON(gen)
 		if err != nil {
